@@ -401,7 +401,40 @@ fn curve_names(ctx: &Ctx, stats: &Stats) -> Vec<Failure> {
         }
         Ok(())
     });
-    let rej: Vec<String> = rejected.iter().map(|s| s.to_string()).collect();
+    let mut rej: Vec<String> = rejected.iter().map(|s| s.to_string()).collect();
+    // every single-character edit (insertion, deletion, replacement over a small ASCII alphabet) of the
+    // three names, unless the result is again a curve name up to case
+    for name in CURVES {
+        let chars: Vec<char> = name.chars().collect();
+        let alphabet = ['_', '-', '.', ' ', '0', '1', 'a', 'Z'];
+        let mut push = |v: Vec<char>| {
+            let cand: String = v.into_iter().collect();
+            if !CURVES.iter().any(|c| c.eq_ignore_ascii_case(&cand)) && !cand.starts_with('-') {
+                rej.push(cand);
+            }
+        };
+        for i in 0..=chars.len() {
+            for a in alphabet {
+                let mut v = chars.clone();
+                v.insert(i, a);
+                push(v);
+            }
+        }
+        for i in 0..chars.len() {
+            let mut v = chars.clone();
+            v.remove(i);
+            push(v);
+            for a in alphabet {
+                if !a.eq_ignore_ascii_case(&chars[i]) {
+                    let mut v = chars.clone();
+                    v[i] = a;
+                    push(v);
+                }
+            }
+        }
+    }
+    rej.sort();
+    rej.dedup();
     let res_bad = run_items(ctx, &rej, |_, name| {
         stats.eval(1);
         stats.class("curve_spellings_rejected_checked");
